@@ -304,6 +304,13 @@ class FunctionVC:
                 return k3.NATIVE[recv.cls](I, recv, name, args, kwargs)
         tgt = self._method_target(recv, name)
         c = self.reg.contracts.get(tgt)
+        # contract variants (`f@variant`): the first whose `applies_when` guard accepts the
+        # arguments (a guard is a python predicate over the evaluated arguments)
+        for key, cv in self.reg.contracts.items():
+            if tgt and key.startswith(tgt + '@') and cv.ghost.get('applies_when') and \
+                    cv.ghost['applies_when'](args, kwargs):
+                c = cv
+                break
         if c is None and isinstance(recv, VRec) and 'own' in recv.fields and \
                 name in ('__setitem__', '__delitem__'):
             # dict subclass that does not override the method: plain dict behaviour on its own layer
@@ -454,8 +461,10 @@ class FunctionVC:
 
     def entry_params(self, I, c):
         env = {}
+        fixed = c.ghost.get('fixed_params', {})
         for n, t in c.params.items():
-            env[n] = fresh(parse_ty(t), n)
+            # a parameter fixed to a constant by the contract (stated in its requires as well)
+            env[n] = lit(fixed[n]) if n in fixed else fresh(parse_ty(t), n)
         return env
 
     def run_path(self, I, c):
